@@ -1114,6 +1114,9 @@ func (g0 *genEnv) genCase(t *rapid.T) Case {
 		g.long = rapid.SampledFrom([]int{4096, 65534, 65535, 65536, 65537, 204800}).Draw(t, "longn")
 		c.Long = g.long
 	}
+	if g.chance("after", 4) {
+		c.After = g.pick("afterk", []string{"fragment", "document", "both"})
+	}
 	if g.chance("fm", 3) {
 		c.FrontMatter = g.frontMatter()
 		c.Gap = g.pick("gap", []string{"", "", "\n", "\n\n"})
